@@ -284,12 +284,16 @@ impl PolicyEngine for SimPolicy {
             _ => (time, spec.min_wait_s),
         };
         w.last_timing = Some((time.clone(), min_wait_s));
-        let timing = CheckTiming { time: time.to_lib(), minimum_wait: min_wait_s.map(Duration::from_secs) };
+        // built the way a policy implementation would (through the type's builder), logged as intended
+        let timing = match min_wait_s {
+            Some(s) => CheckTiming::builder().time(time.to_lib()).minimum_wait(Duration::from_secs(s)).build(),
+            None => CheckTiming::builder().time(time.to_lib()).build(),
+        };
         w.push(Ev::PolicyNext {
             apps: apps.iter().map(AppSnap::of).collect(),
             sched: SchedSnap::of(scheduling),
             proto: ProtoSnap::of(protocol_state),
-            answer: TimingSnap::of(&timing),
+            answer: TimingSnap { time, min_wait_ns: min_wait_s.map(|s| s as u128 * 1_000_000_000) },
         });
         let gated = w.script.gated.policy;
         drop(w);
